@@ -664,6 +664,63 @@ fn main() {
                 });
                 out
             }
+            // sasl_outcome <code 0..4>: a real client with the PLAIN profile against a scripted server that answers
+            //   init with sasl-outcome{code}; reports whether the client went on to the AMQP header
+            "sasl_outcome" => {
+                use bytes::BytesMut;
+                use fe2o3_amqp::frames::sasl::{Frame as SFrame, FrameCodec};
+                use fe2o3_amqp_types::primitives::{Array, Symbol};
+                use fe2o3_amqp_types::sasl::{SaslCode, SaslMechanisms, SaslOutcome};
+                use tokio::io::{AsyncReadExt, AsyncWriteExt};
+                use tokio_util::codec::Encoder;
+                let code = match nums[0] {
+                    0 => SaslCode::Ok,
+                    1 => SaslCode::Auth,
+                    2 => SaslCode::Sys,
+                    3 => SaslCode::SysPerm,
+                    _ => SaslCode::SysTemp,
+                };
+                let rt = tokio::runtime::Builder::new_current_thread().enable_time().build().unwrap();
+                rt.block_on(async move {
+                    async fn write_frame(io: &mut tokio::io::DuplexStream, f: SFrame) {
+                        let mut body = BytesMut::new();
+                        FrameCodec {}.encode(f, &mut body).unwrap();
+                        let _ = io.write_u32(body.len() as u32 + 4).await;
+                        let _ = io.write_all(&body).await;
+                    }
+                    let (client_io, mut peer_io) = tokio::io::duplex(8192);
+                    let peer = tokio::spawn(async move {
+                        let mut hdr = [0u8; 8];
+                        if peer_io.read_exact(&mut hdr).await.is_err() {
+                            return false;
+                        }
+                        let _ = peer_io.write_all(b"AMQP\x03\x01\x00\x00").await;
+                        write_frame(&mut peer_io, SFrame::Mechanisms(SaslMechanisms { sasl_server_mechanisms: Array::from(vec![Symbol::from("PLAIN")]) })).await;
+                        // the init frame
+                        if let Ok(n) = peer_io.read_u32().await {
+                            let mut body = vec![0u8; (n as usize).saturating_sub(4)];
+                            let _ = peer_io.read_exact(&mut body).await;
+                        }
+                        write_frame(&mut peer_io, SFrame::Outcome(SaslOutcome { code, additional_data: None })).await;
+                        let mut hdr2 = [0u8; 8];
+                        match tokio::time::timeout(std::time::Duration::from_millis(800), peer_io.read_exact(&mut hdr2)).await {
+                            Ok(Ok(_)) => &hdr2 == b"AMQP\x00\x01\x00\x00",
+                            _ => false,
+                        }
+                    });
+                    let client = tokio::time::timeout(std::time::Duration::from_millis(1500), async {
+                        fe2o3_amqp::Connection::builder()
+                            .container_id("client")
+                            .sasl_profile(fe2o3_amqp::sasl_profile::SaslProfile::Plain { username: "user".to_string(), password: "pw".to_string() })
+                            .open_with_stream(client_io)
+                            .await
+                            .is_ok()
+                    })
+                    .await;
+                    let proceeded = peer.await.unwrap_or(false);
+                    format!("{{\"client_proceeded\":{},\"client_open_ok\":{}}}", proceeded, matches!(client, Ok(true)))
+                })
+            }
             // reader <dst_len> <l1> <l2> <l3>: one read of the chained-buffer reader over three chunks
             "reader" => {
                 use std::io::Read;
